@@ -1,6 +1,6 @@
 (** * C02 — published market data always equals the resting orders *)
 From Bourse Require Import Model.Types Model.Map Model.Side Model.Book Model.Obs Spec.RefBook
-  Proofs.Refine Proofs.Volumes Proofs.Views Proofs.Reload.
+  Proofs.Refine Proofs.Volumes Proofs.Views Proofs.Reload Proofs.PosVol Proofs.Uncrossed.
 
 (** [Inv] is the queue invariant [InvQ] (both priority maps are strictly sorted
     and hold exactly the Active orders of their side under their stored keys)
@@ -58,6 +58,38 @@ Theorem c02_sentinels : forall tbl,
   (resting Bid tbl = [] -> touch Bid tbl = 0) /\ (resting Ask tbl = [] -> touch Ask tbl = MAXP).
 Proof. intros tbl. unfold touch, best_bid, best_ask. split; intros ->; reflexivity. Qed.
 
+(** As long as trading has never been disabled (the book is created with trading
+    on and the history contains no [disable_trading]; request volumes are >= 1,
+    prices 32-bit, nothing else is assumed - no clock discipline, any ids, reloads
+    allowed) the best bid is strictly below the best ask whenever both sides hold a
+    resting order. One operation preserves the invariant [XInv] = [Inv] + "orders
+    that can rest have positive volume" + "flag on" + "every resting bid is priced
+    strictly below every resting ask". *)
+Theorem c02_never_crossed_step : forall s o s' x,
+  XInv s -> op_u32 o -> op_vols o -> o <> ODisable -> step_raw s o = Ok (s', x) -> XInv s'.
+Proof. exact step_raw_xinv. Qed.
+
+Theorem c02_never_crossed : forall t0 tick s0 ops s xs,
+  book_new t0 tick true = Ok s0 -> Forall op_u32 ops -> Forall op_vols ops -> ~ In ODisable ops ->
+  run_outs s0 ops = Ok (s, xs) ->
+  resting Bid (map e_order (b_orders s)) <> [] -> resting Ask (map e_order (b_orders s)) <> [] ->
+  fst (bid_ask s) < snd (bid_ask s).
+Proof. exact never_crossed_history. Qed.
+
+Check c02_never_crossed : forall t0 tick s0 ops s xs,
+  book_new t0 tick true = Ok s0 -> Forall op_u32 ops -> Forall op_vols ops -> ~ In ODisable ops ->
+  run_outs s0 ops = Ok (s, xs) ->
+  resting Bid (map e_order (b_orders s)) <> [] -> resting Ask (map e_order (b_orders s)) <> [] ->
+  fst (bid_ask s) < snd (bid_ask s).
+
+(** The volume hypothesis is needed: an order of volume 0 is not matched and
+    rests at a crossing price (a witness on the model). *)
+Example c02_zero_volume_crosses :
+  (do s0 <- book_new 0 1 true;
+   do (s, xs) <- run_outs s0 [OCreatePlace Ask 5 1 (Some 100); OCreatePlace Bid 0 2 (Some 105)];
+   Ok (bid_ask s)) = Ok (105, 100).
+Proof. vm_compute. reflexivity. Qed.
+
 Check c02_views_recomputed_every_reachable_state : forall L t0 tick tr s0 ops s xs,
   book_new t0 tick tr = Ok s0 -> Forall op_u32 ops -> run_outs s0 ops = Ok (s, xs) ->
   observe L s = ref_observe_tbl L (b_t s) (b_tick s) (b_tvol s) (map e_order (b_orders s)) (b_trades s).
@@ -79,3 +111,5 @@ Print Assumptions c02_invariant_every_reachable_state.
 Print Assumptions c02_views_recomputed_every_reachable_state.
 Print Assumptions c02_views_agree.
 Print Assumptions c02_sentinels.
+Print Assumptions c02_never_crossed_step.
+Print Assumptions c02_never_crossed.
